@@ -10,6 +10,25 @@ CaseResult reject_static(const RunCtx &, TapeReader &, unsigned);
 CaseResult reject_dynamic(const RunCtx &, TapeReader &, unsigned);
 CaseResult reject_misc(const RunCtx &, TapeReader &, unsigned);
 
+/// Position of the injected violation inside a sequence of length len: first, last and their neighbours are over-represented
+/// (a check that skips the first or the last element is the classic way such validation goes wrong), the rest is uniform.
+inline size_t pick_pos(TapeReader &t, size_t len) {
+    if (len <= 1) {
+        t.below(1);
+        t.below(1);
+        return 0;
+    }
+    static const unsigned w[] = {3, 3, 1, 1, 8};
+    size_t k = t.weighted(w), u = t.below(len);
+    switch (k) {
+        case 0: return 0;
+        case 1: return len - 1;
+        case 2: return 1;
+        case 3: return len - 2;
+        default: return u;
+    }
+}
+
 /// Runs f and classifies what it threw.
 enum class Thrown { Nothing, InvalidArgument, LogicError, OtherStd, Unknown };
 template<typename F>
